@@ -26,7 +26,7 @@ type Req struct {
 	Idx      int
 }
 
-var Watchdog = 60 * time.Second
+var Watchdog = 25 * time.Second
 
 // Server is the scripted peer of one p9.Client.
 type Server struct {
@@ -315,6 +315,7 @@ func (s *Server) Close() { s.S.Close() }
 func (s *Server) await(cond func() bool) (quiesce.Outcome, []quiesce.G) {
 	deadline := time.Now().Add(Watchdog)
 	wait := 500 * time.Microsecond
+	span := quiesce.StartSpan()
 	for {
 		s.mu.Lock()
 		ok := cond()
@@ -329,7 +330,8 @@ func (s *Server) await(cond func() bool) (quiesce.Outcome, []quiesce.G) {
 			continue
 		case <-t.C:
 		}
-		if q, gs := quiesce.Quiet(); q {
+		q, gs := quiesce.Quiet()
+		if q {
 			s.mu.Lock()
 			ok := cond()
 			s.mu.Unlock()
@@ -338,8 +340,9 @@ func (s *Server) await(cond func() bool) (quiesce.Outcome, []quiesce.G) {
 			}
 			return quiesce.Stuck, gs
 		}
+		span.Observe(gs)
 		if time.Now().After(deadline) {
-			return quiesce.Timeout, quiesce.Snapshot()
+			return span.Classify(), quiesce.Snapshot()
 		}
 		if wait < 20*time.Millisecond {
 			wait *= 2
